@@ -22,6 +22,11 @@ pub const PKG_VERSION: &str = env!("CARGO_PKG_VERSION");
 mod buztable;
 mod c09;
 mod c10;
+mod clonechecks;
+mod clonelab;
+mod codec;
+mod memdev;
+mod universe;
 mod refchunk;
 mod rep;
 
@@ -72,6 +77,10 @@ fn main() {
             match id.as_str() {
                 "C09" => c09::run(&mut rep),
                 "C10" => c10::run(&mut rep),
+                "C02" => clonechecks::c02(&mut rep),
+                "C03" => clonechecks::c03(&mut rep),
+                "C06" => clonechecks::c06(&mut rep),
+                "C13" => clonechecks::c13(&mut rep),
                 _ => {
                     eprintln!("MACHINERY-ERROR unknown property {id}");
                     std::process::exit(2)
@@ -86,6 +95,7 @@ fn main() {
             let still = match id.as_str() {
                 "C09" => c09::replay(&detail),
                 "C10" => c10::replay(&detail),
+                "C02" | "C03" | "C06" | "C13" => clonechecks::replay(&id, &detail),
                 _ => {
                     eprintln!("MACHINERY-ERROR no replay for {id}");
                     std::process::exit(2)
